@@ -103,16 +103,16 @@ example : BlockInv {} [] := blockInv_empty
     `delivered_block_obeys_common_rules`). Whatever the state `s` of the stream layer, after
     `Inner::recv_headers` every receive queue is empty, or unchanged, or has gained ONE event `ev` with
     `ValidEvent`:
-    * a `request` (server only): every rule of `Spec.Http.request g` holds except the two shapes of
-      `RequestException` (findings N2 / N3: CONNECT without `:authority`; no `:path` and no
-      `:authority`), and the fields handed over are exactly the regular fields of `g`;
+    * a `request` (server only): `Spec.Http.request g = []` — NO rule is violated (since the repair of
+      findings N2 / N3 without exception) — and the fields handed over are exactly the regular
+      fields of `g`;
     * a `headers` / `informational` response (client only): the only rules that may be violated are
       `missing-status` (delivered as 200) and `request-pseudo-in-response` (known findings F5b, F5a);
     * `trailers`: only `pseudo-in-trailers` may be violated (known finding F5c); the fields handed over
       are exactly the regular fields of `g` (over-size trailers are refused: finding N6, repaired).
-    In particular a head with a `:status` in a request, without `:method`, without `:scheme`, with an
-    empty `:path`, CONNECT with `:scheme`/`:path`, `:protocol` without extended CONNECT … is never
-    queued. -/
+    In particular a head with a `:status` in a request, without `:method`, without `:scheme`, without or
+    with an empty `:path`, CONNECT without `:authority` or with `:scheme`/`:path`, `:protocol` without
+    extended CONNECT … is never queued. -/
 theorem recv_headers_hands_over_only_checked_messages (s : Streams) (blk : HeaderBlock) (g : List Header)
     (sid : Nat) (eos : Bool) (hm : blk.isMalformed = false) (hb : BlockInv blk g)
     (hok : ∀ x ∈ g, fieldOk x = true) :
@@ -134,8 +134,8 @@ example : ((srv0.recvRecvHeaders 0 { sid := 1, eos := true, status := none }).2)
 
 -- ===================================================================== 3. content-length against DATA
 
-/-- **Announced = stored.** When the reference reads a content-length `n` off the field list (exactly
-    one value, non-empty, all digits) and the head is accepted on a live stream that is not a response
+/-- **Announced = stored.** When the reference reads a content-length `n` off the field list (every
+    value non-empty, all digits, all equal) and the head is accepted on a live stream that is not a response
     to HEAD, the stream's ledger starts at `n`; and a head carrying END_STREAM is accepted only with
     `n = 0` (or status 204 / 304). -/
 theorem accepted_head_sets_content_length (s : Streams) (k : Nat) (blk : HeaderBlock) (g : List Header) (sid : Nat)
@@ -145,6 +145,47 @@ theorem accepted_head_sets_content_length (s : Streams) (k : Nat) (blk : HeaderB
     clOf (s.recvRecvHeaders k (Conn.headersIn sid eos blk)).1 k = some (.remaining n) ∧
     ¬(eos = true ∧ n > 0 ∧ statusNot204304 (Conn.headersIn sid eos blk) = true) :=
   accepted_head_content_length s k blk g sid eos cl0 n hf live hnh hspec hok
+
+/-- **The code agrees with the reference on content-length.** An accepted head (live stream, not a
+    response to HEAD) either carries no content-length (`Spec.Http.contentLength g = none`, ledger
+    untouched) or is one for which the reference reads a number `n` — every value non-empty, all digits,
+    all equal (RFC 9110 §8.6) — and `n` is what the ledger starts from; END_STREAM on the head only goes
+    with 0 (or status 204 / 304). -/
+theorem accepted_head_content_length_agrees (s : Streams) (k : Nat) (blk : HeaderBlock) (g : List Header) (sid : Nat)
+    (eos : Bool) (cl0 : ContentLength) (hf : blk.fields = groupInto [] (regular g))
+    (live : clOf s k = some cl0) (hnh : cl0 ≠ .head)
+    (hok : (s.recvRecvHeaders k (Conn.headersIn sid eos blk)).2.isOk = true) :
+    (Spec.Http.contentLength g = none ∧ clOf (s.recvRecvHeaders k (Conn.headersIn sid eos blk)).1 k = some cl0) ∨
+    (∃ n, Spec.Http.contentLength g = some (some n) ∧
+      clOf (s.recvRecvHeaders k (Conn.headersIn sid eos blk)).1 k = some (.remaining n) ∧
+      ¬(eos = true ∧ n > 0 ∧ statusNot204304 (Conn.headersIn sid eos blk) = true)) :=
+  accepted_head_agrees_with_reference s k blk g sid eos cl0 hf live hnh hok
+
+/-- **An announcement the reference cannot read is refused** (findings N4a / N4b repaired): when
+    `Spec.Http.contentLength g = some none` — a value empty or not all digits, or values that differ —
+    `Recv::recv_headers` does not answer `Ok`; it is a stream error PROTOCOL_ERROR by
+    `head_refusals_are_protocol_errors`, which fails the stream by `refused_head_fails_stream`. -/
+theorem head_with_bad_content_length_is_refused (s : Streams) (k : Nat) (blk : HeaderBlock) (g : List Header)
+    (sid : Nat) (eos : Bool) (cl0 : ContentLength) (hf : blk.fields = groupInto [] (regular g))
+    (live : clOf s k = some cl0) (hnh : cl0 ≠ .head) (hspec : Spec.Http.contentLength g = some none) :
+    (s.recvRecvHeaders k (Conn.headersIn sid eos blk)).2.isOk = false :=
+  unreadable_content_length_refused s k blk g sid eos cl0 hf live hnh hspec
+
+/-- **The one difference between reference and code, on the safe side**: when the reference reads `n` and
+    no value is longer than 19 octets, every value passes `parse_u64` with `n` — the only readable
+    announcements the code refuses are those of more than 19 digits (`u64`). -/
+theorem readable_content_length_parses_up_to_19_digits (g : List Header) (n : Nat)
+    (hspec : Spec.Http.contentLength g = some (some n))
+    (hlen : ∀ v ∈ Spec.Http.get g "content-length", v.length ≤ 19) :
+    Spec.Http.get g "content-length" ≠ [] ∧ ∀ v ∈ Spec.Http.get g "content-length", parseU64 v = some n :=
+  spec_content_length_parses g n hspec hlen
+
+example : Spec.Http.contentLength (fieldsOf rd0 twoClFrame) = some none ∧
+    Spec.Http.contentLength (fieldsOf rd0 sameClFrame) = some (some 5) ∧
+    Spec.Http.get (fieldsOf rd0 sameClFrame) "content-length" = [[53], [53]] := by decide +kernel
+
+example : Spec.Http.get (fieldsOf rd0 twoClFrame) "content-length" = [[53], [55]] ∧ parseU64 [53] = some 5 ∧
+    parseU64 [55] = some 7 ∧ parseU64 [] = none := by decide +kernel
 
 example : Spec.Http.contentLength (fieldsOf rd0 oneClFrame) = some (some 5) ∧
     ((hdrOf rd0 oneClFrame).map fun h => clOf (rhEntry srv0 h).1 0) = some (some .omitted) ∧
@@ -182,11 +223,11 @@ theorem head_response_body_is_empty {k : Nat} {s s' : Streams} {t : Nat} (h : Bo
 example : clOf (cli0.sendRequest true [Conn.field ":method" "HEAD", Conn.field ":scheme" "http",
     Conn.field ":authority" "example.com", Conn.field ":path" "/"] true none).1 0 = some .head := by decide +kernel
 
-/-- non-vacuity: a request announcing 5 octets; 5 octets with END_STREAM are accepted (`two_content_…`
-    below runs exactly this history), so `BodyTrace` with `t = 5 = n` is inhabited -/
+/-- non-vacuity: a request announcing 5 octets; 5 octets with END_STREAM are accepted, so `BodyTrace` with
+    `t = 5 = n` is inhabited -/
 example : ∃ s, clOf s 0 = some (.remaining 5) ∧ (s.stream 0).state.isLocalError = false ∧
     (s.recvRecvData 0 [104, 101, 108, 108, 111] true none).2.toOption = some () := by
-  refine ⟨((hdrOf rd0 twoClFrame).map fun h => (srv0.recvHeaders h).1).getD srv0, ?_⟩
+  refine ⟨((hdrOf rd0 oneClFrame).map fun h => (srv0.recvHeaders h).1).getD srv0, ?_⟩
   decide +kernel
 
 /-- **DATA is handed over only through `recv_data`'s checks**: at most one `data` event, with this
@@ -256,7 +297,7 @@ theorem refused_data_fails_stream (s : Streams) (k : Nat) (payload : Bytes) (eos
     FailsStream (s.recvRecvData k payload eos padLen).1 k reason init (s.transition k fun s => rdBody s k payload eos padLen) :=
   refused_data_fails s k payload eos padLen i reason init hr
 
-example : ((hdrOf rd0 twoClFrame).map fun h =>
+example : ((hdrOf rd0 oneClFrame).map fun h =>
     errOf ((srv0.recvHeaders h).1.recvRecvData 0 [1, 2, 3, 4, 5, 6] false none).2) =
       some (some (.reset 1 Conn.PROTOCOL_ERROR .library)) := data_against_content_length_witness.1
 
@@ -307,7 +348,7 @@ example : RInv' (Conn.init {}).codec.r := init_cinv {}
     for a frame as `poll_next` yields it, everything `DynConnection::recv_frame` puts into any receive
     queue is ONE event satisfying `ValidFrameEvent`: for HEADERS a `ValidEvent` (see
     `recv_headers_hands_over_only_checked_messages`), for DATA its own payload, for PUSH_PROMISE a GET /
-    HEAD request obeying `Spec.Http.request` up to `missing-path` without `:authority`; RST_STREAM,
+    HEAD request obeying every rule of `Spec.Http.request`; RST_STREAM,
     SETTINGS, PING, GOAWAY, WINDOW_UPDATE, PRIORITY and end of input hand over nothing. -/
 theorem recv_frame_hands_over_only_valid_messages (c : Conn) (f : Option Frame.Frame)
     (hgood : ∀ fr, f = some fr → GoodFrame fr) :
@@ -332,7 +373,8 @@ theorem send_api_refuses_untouched (s : Streams) (id : Nat) (eos : Bool) (fields
 example : (Streams.checkHeaders [Conn.field "connection" "close"]).toOption = none := by decide +kernel
 
 /-- **What the send API accepts** (request, response, interim response, trailers, push promise) has no
-    connection-specific field at all, and its first `te` field is `trailers`. -/
+    connection-specific field and no `te` field other than `trailers` at all (since the repair of finding
+    N5 every `te` value is looked at). -/
 theorem send_api_accepts_only_checked (fields : List Hpack.Field)
     (h : (∃ s id eos, (Streams.sendHeaders s id eos fields).2 = .ok ()) ∨
          (∃ s id, (Streams.sendTrailers s id fields).2 = .ok ()) ∨
@@ -340,27 +382,30 @@ theorem send_api_accepts_only_checked (fields : List Hpack.Field)
          (∃ s p pk pid, (Streams.sendPushPromise s p pk pid fields).2 = .ok ()) ∨
          (∃ s isHead eos p r, (Streams.sendRequest s isHead fields eos p).2 = .ok r)) :
     "connection-specific-field" ∉ Spec.Http.common (wireFields fields) ∧
-    (∀ f, fields.find? (fun f => f.h.1 == Spec.Http.ascii "te") = some f → f.h.2 = Spec.Http.ascii "trailers") :=
+    "te-not-trailers" ∉ Spec.Http.common (wireFields fields) ∧
+    (∀ f ∈ fields, f.h.1 = Spec.Http.ascii "te" → f.h.2 = Spec.Http.ascii "trailers") :=
   send_accepts_checked fields h
 
 example : ∃ r, (cli0.sendRequest false [Conn.field ":method" "GET", Conn.field ":scheme" "http",
     Conn.field ":authority" "example.com", Conn.field ":path" "/"] true none).2.toOption = some r :=
   ⟨(0, false), by decide +kernel⟩
 
--- ===================================================================== 5. what does NOT hold (witnesses on concrete wire bytes)
+-- ===================================================================== 5. witnesses on concrete wire bytes: what does NOT hold (F5a–c, F8), and regressions of the repaired findings
 
-/-- N2 (new finding, reproduced on the real code): the server hands CONNECT without `:authority` to
-    the application -/
-theorem connect_without_authority_counterexample :
-    queuesAfter srv0 rd0 connectOnly = some [[.request [67, 79, 78, 78, 69, 67, 84] [] []]] ∧
-    Spec.Http.request (fieldsOf rd0 connectOnly) false = ["connect-without-authority"] :=
-  H2V.Lemmas.ConnHttpP.connect_without_authority_counterexample
+/-- N2 (found here, since repaired): CONNECT without `:authority` — formerly handed to the application —
+    is refused: nothing queued, stream reset, RST_STREAM(PROTOCOL_ERROR) queued -/
+theorem connect_without_authority_rejected :
+    Spec.Http.request (fieldsOf rd0 connectOnly) false = ["connect-without-authority"] ∧
+    queuesAfter srv0 rd0 connectOnly = some [[]] ∧ resetsAfter srv0 rd0 connectOnly = some [true] ∧
+    sendQueuesAfter srv0 rd0 connectOnly = some [[.reset Conn.PROTOCOL_ERROR]] :=
+  H2V.Lemmas.ConnHttpP.connect_without_authority_rejected
 
-/-- N3 (new finding, reproduced): a GET with `:scheme` only — no `:path`, no `:authority` — is delivered -/
-theorem get_without_path_counterexample :
-    queuesAfter srv0 rd0 getSchemeOnly = some [[.request [71, 69, 84] [] []]] ∧
-    Spec.Http.request (fieldsOf rd0 getSchemeOnly) false = ["missing-path"] :=
-  H2V.Lemmas.ConnHttpP.get_without_path_counterexample
+/-- N3 (found here, since repaired): a GET with `:scheme` only — no `:path`, no `:authority` — is refused -/
+theorem get_without_path_rejected :
+    Spec.Http.request (fieldsOf rd0 getSchemeOnly) false = ["missing-path"] ∧
+    queuesAfter srv0 rd0 getSchemeOnly = some [[]] ∧ resetsAfter srv0 rd0 getSchemeOnly = some [true] ∧
+    sendQueuesAfter srv0 rd0 getSchemeOnly = some [[.reset Conn.PROTOCOL_ERROR]] :=
+  H2V.Lemmas.ConnHttpP.get_without_path_rejected
 
 /-- F5b (known): a response without `:status` is delivered as 200 -/
 theorem response_without_status_counterexample :
@@ -381,20 +426,27 @@ theorem trailers_with_pseudo_counterexample :
     Spec.Http.trailers (fieldsOf (decodeFrame rd0 okResp).1 statusTrailers) = ["pseudo-in-trailers"] :=
   H2V.Lemmas.ConnHttpP.trailers_with_pseudo_counterexample
 
-/-- N4a (new finding, reproduced): of two different `content-length` values only the first counts -/
-theorem two_content_lengths_counterexample :
+/-- N4a (found here, since repaired): two different `content-length` values — formerly the first counted —
+    are refused -/
+theorem two_content_lengths_rejected :
     Spec.Http.contentLength (fieldsOf rd0 twoClFrame) = some none ∧
-    ((hdrOf rd0 twoClFrame).map fun h =>
-      let s1 := (srv0.recvHeaders h).1
-      (clOf s1 0, (s1.recvRecvData 0 [104, 101, 108, 108, 111] true none).2.toOption)) =
-      some (some (.remaining 5), some ()) :=
-  H2V.Lemmas.ConnHttpP.two_content_lengths_counterexample
+    queuesAfter srv0 rd0 twoClFrame = some [[]] ∧ resetsAfter srv0 rd0 twoClFrame = some [true] ∧
+    sendQueuesAfter srv0 rd0 twoClFrame = some [[.reset Conn.PROTOCOL_ERROR]] :=
+  H2V.Lemmas.ConnHttpP.two_content_lengths_rejected
 
-/-- N4b (new finding, reproduced): an empty `content-length` value counts as 0 -/
-theorem empty_content_length_counterexample :
-    Spec.Http.contentLength (fieldsOf rd0 emptyClFrame) = some none ∧ parseU64 [] = some 0 ∧
-    ((queuesAfter srv0 rd0 emptyClFrame).map fun q => q.map (·.length)) = some [1] :=
-  H2V.Lemmas.ConnHttpP.empty_content_length_counterexample
+/-- N4b (found here, since repaired): an empty `content-length` value — formerly read as 0 — is refused -/
+theorem empty_content_length_rejected :
+    Spec.Http.contentLength (fieldsOf rd0 emptyClFrame) = some none ∧ parseU64 [] = none ∧
+    queuesAfter srv0 rd0 emptyClFrame = some [[]] ∧ resetsAfter srv0 rd0 emptyClFrame = some [true] :=
+  H2V.Lemmas.ConnHttpP.empty_content_length_rejected
+
+/-- a REPEATED content-length with equal values (RFC 9110 §8.6): reference and code agree — the reference
+    reads 5, the head is accepted, the ledger starts at 5 -/
+theorem repeated_equal_content_length_agrees :
+    Spec.Http.contentLength (fieldsOf rd0 sameClFrame) = some (some 5) ∧
+    ((hdrOf rd0 sameClFrame).map fun h => clOf (srv0.recvHeaders h).1 0) = some (some (.remaining 5)) ∧
+    ((queuesAfter srv0 rd0 sameClFrame).map fun q => q.map (·.length)) = some [1] :=
+  H2V.Lemmas.ConnHttpP.repeated_equal_content_length_agrees
 
 /-- N6 (found here, since repaired): trailers beyond SETTINGS_MAX_HEADER_LIST_SIZE — formerly handed over
     without the fields that did not fit — are refused: no `trailers` event, stream reset PROTOCOL_ERROR -/
@@ -410,11 +462,13 @@ theorem oversize_trailers_rejected :
     (ghostNext [] (decodeFrame rd200 postFrame).1 bigTrailers).map (·.1) = [[120, 45, 97], [120, 45, 98]] :=
   H2V.Lemmas.ConnHttpP.oversize_trailers_rejected
 
-/-- N5 (new finding, reproduced): the send side looks at the first `te` value only -/
-theorem send_second_te_counterexample :
-    (Streams.checkHeaders [Conn.field "te" "trailers", Conn.field "te" "gzip"]).toOption = some () ∧
+/-- N5 (found here, since repaired): `te: trailers` followed by `te: gzip` — formerly emitted — is refused
+    by `check_headers` -/
+theorem send_second_te_rejected :
+    (Streams.checkHeaders [Conn.field "te" "trailers", Conn.field "te" "gzip"]).toOption = none ∧
+    (Streams.checkHeaders [Conn.field "te" "trailers", Conn.field "te" "trailers"]).toOption = some () ∧
     Spec.Http.common (wireFields [Conn.field "te" "trailers", Conn.field "te" "gzip"]) = ["te-not-trailers"] :=
-  H2V.Lemmas.ConnHttpP.send_second_te_counterexample
+  H2V.Lemmas.ConnHttpP.send_second_te_rejected
 
 /-- F8 (known by reading): the send side does not hold DATA against its own content-length -/
 theorem send_body_beyond_content_length_counterexample :
@@ -443,6 +497,9 @@ end H2V.Props.C13
 #print axioms H2V.Props.C13.recv_headers_hands_over_only_checked_messages
 #print axioms H2V.Props.C13.rejected_head_queues_nothing
 #print axioms H2V.Props.C13.accepted_head_sets_content_length
+#print axioms H2V.Props.C13.accepted_head_content_length_agrees
+#print axioms H2V.Props.C13.head_with_bad_content_length_is_refused
+#print axioms H2V.Props.C13.readable_content_length_parses_up_to_19_digits
 #print axioms H2V.Props.C13.body_never_exceeds_content_length
 #print axioms H2V.Props.C13.body_ended_by_data_is_exact
 #print axioms H2V.Props.C13.body_ended_by_trailers_is_exact
@@ -460,14 +517,15 @@ end H2V.Props.C13
 #print axioms H2V.Props.C13.recv_frame_hands_over_only_valid_messages
 #print axioms H2V.Props.C13.send_api_refuses_untouched
 #print axioms H2V.Props.C13.send_api_accepts_only_checked
-#print axioms H2V.Props.C13.connect_without_authority_counterexample
-#print axioms H2V.Props.C13.get_without_path_counterexample
+#print axioms H2V.Props.C13.connect_without_authority_rejected
+#print axioms H2V.Props.C13.get_without_path_rejected
 #print axioms H2V.Props.C13.response_without_status_counterexample
 #print axioms H2V.Props.C13.response_with_request_pseudo_counterexample
 #print axioms H2V.Props.C13.trailers_with_pseudo_counterexample
-#print axioms H2V.Props.C13.two_content_lengths_counterexample
-#print axioms H2V.Props.C13.empty_content_length_counterexample
+#print axioms H2V.Props.C13.two_content_lengths_rejected
+#print axioms H2V.Props.C13.empty_content_length_rejected
+#print axioms H2V.Props.C13.repeated_equal_content_length_agrees
 #print axioms H2V.Props.C13.oversize_trailers_rejected
-#print axioms H2V.Props.C13.send_second_te_counterexample
+#print axioms H2V.Props.C13.send_second_te_rejected
 #print axioms H2V.Props.C13.send_body_beyond_content_length_counterexample
 #print axioms H2V.Props.C13.split_malformed_block_rejected
